@@ -68,9 +68,9 @@ class Prop(SeqProp):
             Case(["fp_new 0 1 2", "fp_enter", "fp_raise"], {"mp": False, "modes": "w"}, "FilePool left by exception"),
             Case(["fp_new 0 1 2 3", "fp_enter", "fp_exit"], {"mp": False, "modes": "a", "body_close": [0, 1]},
                  "FilePool whose body closed two of the handles itself"),
-            Case(["new", "create 0", "create 0", "create 0", "remove 0 1", "create 0", "exit"], {"mp": False, "enter_at": 3, "reenter_at": 5},
+            Case(["new", "create 0", "create 0", "enter 0", "create 0", "remove 0 1", "enter 0", "create 0", "exit"], {"mp": False, "late_enter": True},
                  "pool used before its context is entered, entered once more by a helper"),
-            Case(["new", "create 0", "create 0", "create 0", "fork 0", "create 1", "exit"], {"mp": True, "enter_at": 3},
+            Case(["new", "create 0", "create 0", "enter 1", "create 0", "fork 0", "create 1", "exit"], {"mp": True, "late_enter": True},
                  "D21: multi_proc pool used before its context is entered"),
             Case(["new", "create 0", "create 0", "remove 0 0", "create 0", "exit"], {"mp": False, "foreign": True},
                  "pool constructed in one process, with-block in a forked child"),
@@ -120,17 +120,21 @@ class Prop(SeqProp):
             first_fork = next((i for i, o in enumerate(ops) if o.startswith("fork")), len(ops))
             hi = min(first_fork, len(ops) - 2)
             if mp_case and rng.random() < 0.25 and hi >= 2:
-                # the same for a multi_proc pool, as long as no child exists yet: the pool object is used (create / remove /
-                # flush work without a context) and the context is entered afterwards
-                meta["enter_at"] = rng.randint(2, hi)
+                # a multi_proc pool, as long as no child exists yet: the pool object is used (create / remove / flush work
+                # without a context) and the context is entered afterwards — `enter` is an operation of the history (model:
+                # Model/TmpPoolCtx.lean, D21)
+                meta["late_enter"] = True
+                ops.insert(rng.randint(2, hi), "enter 1")
             if not mp_case and rng.random() < 0.2:
                 # a single-process pool works without a context too: the object is used first and its context is entered
                 # later (`pool = TmpPool(d); pool.create(); with pool: …`), or a helper that got the pool wraps its own work
                 # in a second `with pool:` — what was created before is still the pool's and goes when the context is left
-                meta["enter_at"] = rng.randint(1, max(1, len(ops) - 2))
+                meta["late_enter"] = True
+                at = rng.randint(1, max(1, len(ops) - 2))
+                ops.insert(at, "enter 0")
                 if rng.random() < 0.4:
-                    meta["reenter_at"] = rng.randint(meta["enter_at"], len(ops) - 1)
-            if (not mp_case and "enter_at" not in meta and rng.random() < 0.04) or (mp_case and k % 4 == 3):
+                    ops.insert(rng.randint(at + 1, len(ops) - 1), "enter 0")
+            if (not mp_case and "late_enter" not in meta and rng.random() < 0.04) or (mp_case and k % 4 == 3):
                 meta["foreign"] = True  # constructed in this process, the with-block runs in a forked child
             elif rng.random() < 0.3:
                 meta["bystanders"] = True  # other pools are alive in the same process while this one is used
@@ -232,16 +236,11 @@ class Prop(SeqProp):
                 by["late"] = "left"
             return None
 
-        enter_at = 0 if pre is not None else int(case.meta.get("enter_at", 0))
-        reenter_at = None if (mp_mode or pre is not None) else case.meta.get("reenter_at")
+        late_enter = bool(case.meta.get("late_enter")) and pre is None
+        entered = False
         try:
             for op_i, op in enumerate(case.ops):
                 w = op.split()
-                if pool is not None and w[0] not in ("exit", "raise"):
-                    if enter_at and op_i == enter_at:
-                        pool.__enter__()
-                    if reenter_at is not None and op_i == reenter_at:
-                        pool.__enter__()
                 if by["on"]:
                     prob = bystander_problem(len(out))
                     if prob is not None:
@@ -251,8 +250,13 @@ class Prop(SeqProp):
                     if w[0] == "new":
                         pool = pre if pre is not None else TmpPool(d, multi_proc=mp_mode)
                         pre = None
-                        if not enter_at:
-                            pool.__enter__()
+                        if not late_enter:
+                            pool.__enter__(); entered = True
+                        r = "ok"
+                    elif w[0] == "enter":
+                        if w[1] != ("1" if mp_mode else "0") or (mp_mode and children):
+                            out.append("bad-op"); continue
+                        pool.__enter__(); entered = True
                         r = "ok"
                     elif w[0] == "create":
                         pid = int(w[1])
@@ -296,6 +300,8 @@ class Prop(SeqProp):
                             os.remove(paths[k])
                         r = "ok"
                     elif w[0] in ("exit", "raise"):
+                        if mp_mode and not entered:
+                            out.append("bad-op"); continue  # (a shrunk history) a multi_proc pool is left only after it was entered
                         listing_pool = pool
                         if w[0] == "exit":
                             pool.__exit__(None, None, None)
